@@ -8,6 +8,35 @@ HERE = os.path.dirname(os.path.dirname(os.path.abspath(__file__)))
 
 # id -> (level, technique, text, note, design_ref)
 CHECKS = {
+    'C18': ('exploration',
+            'lattice enumeration + Hypothesis generation against the published equation evaluated independently, '
+            'monotonicity and inverse-accuracy invariants',
+            'Every triple of a T x M x W lattice (9^3 quick, 25^3 thorough) and thousands of random triples are '
+            'checked on a 2001-point display grid against the biexponential computed in math floats with p from '
+            'bisection, for strict monotonicity, x(W)=0, inverse error <= 1e-4*M and inverse monotonicity; '
+            'data-derived T, M, W against the documented rules; refusals; the matplotlib axis. Sampling of a '
+            'continuous parameter box: no absence claim.',
+            'Trusted: the oracle equation/bisection in pbt/props/c18.py; tolerance 2e-6 of the transform scale '
+            "because the library solves p with scipy's default tolerance.",
+            'DESIGN.md section 4, C18'),
+    'C09': ('exploration',
+            'Hypothesis generation of bead laws with exact synthetic RFI values; recovery oracle (5%) and '
+            'structural identities',
+            'Generated (m, b, autofluorescence, ladder) tuples over the stated box with exactly computed RFI are '
+            'fitted and compared with the generating law over the bead span; odd/zero/increasing/non-negative '
+            'autofluorescence/model identities for every fit incl. arbitrary pairs; refusals. A numerical '
+            'optimiser is involved: a sweep cannot exclude a measure-zero pocket.',
+            'Trusted: math-float evaluation of the bead model in the oracle.',
+            'DESIGN.md section 4, C09'),
+    'C19': ('exploration',
+            'Hypothesis generation of samples x channel forms x bin counts x scales; invariants recomputed '
+            'independently (count, monotone, cover, positivity, logicle image, bin-centre identity, per-channel '
+            'consistency, purity)',
+            'Bin edges for generated samples (resolutions 2^8..2^18 and arbitrary, raw/RFI/MEF ranges, all '
+            'channel forms, n in {1,2,default,arbitrary,list}, three scales and per-channel lists, logicle '
+            'overrides) are checked against independently recomputed invariants.',
+            'Trusted: sample.range() as the definition of the channel range; oracle biexponential.',
+            'DESIGN.md section 4, C19'),
     'C14': ('exploration',
             'exhaustive enumeration of short strings + Hypothesis generation, differential vs an independent '
             'reference tokenizer, encode/decode round-trip',
